@@ -11,6 +11,8 @@ mod engine;
 mod bridge;
 #[path = "../../harness/src/structs.rs"]
 mod structs;
+#[path = "../../harness/src/refmodel/mod.rs"]
+mod refmodel;
 mod c20;
 
 use engine::Tier;
